@@ -14,7 +14,7 @@ import vlib
 from vlib import log
 
 FAMILY = "quads"
-U_L2 = {"s": [1, 2], "p": [3], "o": [1, 2], "g": [7, 8]}
+U_L2 = {"s": [1, 2], "p": [2], "o": [1, 2], "g": [7, 8]}   # term 2 occurs as subject, predicate and object
 
 
 def skey(st):
